@@ -16,3 +16,11 @@ def run(ctx):
     solids.judge_stage(ctx, "raster", ["c12-raster", "n=%d" % (40 if quick else 400)], {"panic", "filter"},
                        judge="pipeline/RasterJudge", keyfn=lambda rec, clause: "Rasterizer.RasterizeSolidFilter:%s%s" % (
                            clause, ":anisotropic-pixels" if rec.get("aniso") else ""))
+
+
+def c2f_ratio(ctx):
+    """Coarse-to-fine meshing at coarse/fine ratios up to 64 against the direct fine mesh (C2FJudge)."""
+    quick = ctx.tier == "quick"
+    args = ["c12-c2f", "n2=%d" % (14 if quick else 140), "n3=%d" % (4 if quick else 18), "maxratio3=%d" % (24 if quick else 32)]
+    solids.judge_stage(ctx, "c2f-ratio", args, {"panic", "subset", "margin", "count"}, judge="pipeline/C2FJudge",
+                       keyfn=lambda rec, clause: "%s:ratio:%s" % (rec["site"], clause))
